@@ -1,6 +1,7 @@
 """C02 - emitted definitions are well-formed, topologically ordered SCgf v2."""
 
 import ast
+import re
 
 from ..loader import AnalysisError, dump_name, norm, full, walk_local, walk_local_ordered
 from .. import util as U
@@ -540,9 +541,25 @@ def rule_valid(ctx):
     # the generic check itself
     f = so.methods['_check_valid_inputs']
     src = full(f.node)
-    ok = 'for i, input in enumerate(self.inputs)' in src and 'if not gpp.ugen_param(input)._is_valid_ugen_input()' in src
+    ok = 'for i, input in enumerate(self.inputs)' in src and 'not gpp.ugen_param(input)._is_valid_ugen_input()' in src
     ctx.ob('C02.valid', f'{so.module.name}:SynthObject._check_valid_inputs', ok,
            'generic check must test every input with _is_valid_ugen_input', f.node, so.module)
+    # one input = one input spec: every graph-parameter class that can pass the generic check writes exactly one spec
+    # (two i32) per input; the sequence parameter writes one per element, so sequences must be refused by the check
+    gm = repo.module('sc3.synth._graphparam')
+    multi = []
+    for ci in gm.classes.values():
+        w = ci.methods.get('_write_input_spec')
+        if w is not None and any(isinstance(x, (ast.For, ast.While)) for x in walk_local(w.node)):
+            multi.append(ci)
+    ctx.require(len(multi) >= 1, 'C02.valid', 'no multi-spec graph parameter found (UGenSequence vanished?)')
+    for ci in multi:
+        pt = ci.methods.get('_param_type')
+        types = sorted(re.findall(r'\b(list|tuple)\b', full(pt.node))) if pt is not None else []
+        refused = all(re.search(rf'isinstance\(input, \([^)]*\b{t}\b[^)]*\)\)', src) for t in types) and bool(types)
+        ctx.ob('C02.valid', f'{ci.fq}:one-spec-per-input', refused,
+               f'{ci.name} writes one input spec per element but counts as one input of the unit; the generic validity check must refuse '
+               f'{types} inputs, otherwise the unit declares fewer inputs than it writes (malformed definition)', f.node, so.module)
     base = so.methods['_check_inputs']
     ctx.ob('C02.valid', f'{so.module.name}:SynthObject._check_inputs', full(base.node).endswith('return self._check_valid_inputs()'),
            'base _check_inputs must delegate to _check_valid_inputs', base.node, so.module)
@@ -583,6 +600,12 @@ def _t2k_condition(ctx, ci, ev):
 
 
 def run(ctx):
+    from .. import beliefs
+    ctx.rule('C02.desc', 'the description keeps what it read: no value read from the definition is replaced because it is falsy (bus 0)')
+    beliefs.rule_ordefault(ctx, 'C02.desc', ['sc3.synth.synthdesc'])
+    io = ctx.repo.cls('sc3.synth.synthdesc:IODesc').methods['__init__']
+    ctx.ob('C02.desc', f'{io.fq}:starting-channel', "self.starting_channel = '?' if starting_channel is None else starting_channel" in full(io.node),
+           'only a missing starting channel is shown as ?; bus 0 stays 0', io.node, io.module)
     from .c04 import rule_groups
     rule_groups(ctx, 'C02.slots')
     rule_fmt(ctx)
@@ -595,6 +618,10 @@ def run(ctx):
 
 
 MUTANTS = [
+    dict(rule='C02.desc', name='(fix reverted) IODesc replaces bus 0 by ?', file='sc3/synth/synthdesc.py',
+         old="        self.starting_channel = '?' if starting_channel is None\\\n            else starting_channel", new="        self.starting_channel = starting_channel or '?'"),
+    dict(rule='C02.valid', name='(fix reverted) sequences pass the generic validity check', file='sc3/synth/ugen.py',
+         old="            if isinstance(input, (list, tuple))\\\n            or not gpp.ugen_param(input)._is_valid_ugen_input():", new="            if not gpp.ugen_param(input)._is_valid_ugen_input():"),
     dict(rule='C02.wgram', name='num inputs written as i16', file='sc3/synth/ugen.py',
          old="frw.write_i32(file, self._num_inputs())", new="frw.write_i16(file, self._num_inputs())"),
     dict(rule='C02.wgram', name='rate and num_inputs swapped', file='sc3/synth/ugen.py',
